@@ -120,9 +120,10 @@ HostExpect(name, src) ==      \* for the source "1" (needs no variable)
 HostHists == Prod2(HostNames, <<SRC_one, SRC_syntax_err>>, LAMBDA hn, s : <<[op |-> "hosteval", src |-> s, host |-> hn]>>)
 
 \* "hist": BFS over actions
-HSrcs == IF P_SIZE >= 4 THEN <<SRC_n_plus_1, SRC_map_lit, SRC_t1_t2, SRC_xs_n, SRC_union_many, SRC_obj_lit, SRC_string_mm, SRC_max_min_xs, SRC_xs0>>
+\* (length-4 histories over fewer sources: the number of histories is (compile choices + invoke choices)^length)
+HSrcs == IF P_SIZE >= 4 THEN <<SRC_t1_t2, SRC_string_mm, SRC_max_min_xs, SRC_xs0>>
          ELSE <<SRC_map_lit, SRC_t1_t2, SRC_union_many, SRC_string_mm, SRC_max_min_xs, SRC_xs0>>
-NEng == IF P_SIZE >= 4 THEN 2 ELSE 1
+NEng == 1
 HTenvs == <<ObjIdx("A", "raw"), ObjIdx("A", "struct"), ObjIdx("D", "raw")>>
 HVenvs == <<ObjIdx("A", "raw"), ObjIdx("B", "raw"), ObjIdx("A", "map"), ObjIdx("D", "raw")>>
 NCalls(h) == Len(SelectSeq(h, LAMBDA s : s.op = "compile"))
